@@ -275,6 +275,7 @@ func c07Property(t *rapid.T) {
 	cfg := simCfg{begin: rapid.SampledFrom(allBegins).Draw(t, "begin"), initiator: rapid.Bool().Draw(t, "initiator"), hb: 30,
 		store: rapid.SampledFrom([]string{"memory", "file", "sql"}).Draw(t, "store"), settings: map[string]string{}}
 	cfg.richID = rapid.Bool().Draw(t, "identity-with-optional-fields")
+	cfg.peerNoReset = rapid.Bool().Draw(t, "peer-logons-say-141=N")
 	yn := func(b bool) string {
 		if b {
 			return "Y"
@@ -441,6 +442,38 @@ func c07Property(t *rapid.T) {
 					vk.Violation(t, c, "C07/stored-messages-changed-by-restart/"+cfg.store, "stored message %d differs after the restart\n%s", i, s.history())
 				}
 			}
+		},
+		"apiSetCounters": func(t *rapid.T) {
+			// the operator sets a counter through the API between connections (also to a lower
+			// value): that value is the counter from then on, across reconnects and restarts
+			if s.r.V.IsConnected() {
+				return
+			}
+			S, T := s.r.S(), s.r.T()
+			if rapid.Bool().Draw(t, "sender") {
+				// (outbound: only upwards - numbers that still have stored messages are not handed
+				// out again; what a store does with a second save under one number is not specified)
+				v := rapid.IntRange(S, S+120).Draw(t, "value")
+				if err := s.r.Store().SetNextSenderMsgSeqNum(v); err != nil {
+					t.Fatalf("harness: SetNextSenderMsgSeqNum: %v", err)
+				}
+				s.logf("API: next outbound number %d -> %d", S, v)
+				for n := range mon.stored {
+					if n >= v {
+						delete(mon.stored, n) // numbers from v on will be used again
+					}
+				}
+				mon.lastS = v
+			} else {
+				v := rapid.OneOf(rapid.IntRange(1, T), rapid.IntRange(T, T+120)).Draw(t, "value")
+				if err := s.r.Store().SetNextTargetMsgSeqNum(v); err != nil {
+					t.Fatalf("harness: SetNextTargetMsgSeqNum: %v", err)
+				}
+				s.logf("API: next inbound number %d -> %d", T, v)
+				mon.lastT = v
+				s.p.NextOut = v
+			}
+			mon.feat["counter-set-through-api"] = true
 		},
 		"sequenceReset": func(t *rapid.T) {
 			if s.r.V.StateName() != "inSession" {
